@@ -245,6 +245,22 @@ def all_obligations():
              flags=['--unwind', '8', '--unwindset', ','.join(f'make_tree.{i}:1030' for i in range(13)) + ',retrieve.10:24,retrieve.11:24,retrieve.13:24', '--unwinding-assertions'],
              expect=['OK only for a non-empty block', 'a block is accepted only if it is non-empty'], replayable=True,
              assumed=['output array stands in with 64 entries (<= 21 symbols are produced); tt_limit is compared, never dereferenced', 'the retriever state is a static harness object (a malloc()ed 60 KB state makes every access a byte extract): free() of it is not checked here']))
+    # ---------------- decode.c emit(): one call from every saved state (C05 O5.7, C06 O6.5, C09 O9.2, C15 O15.3)
+    for st in range(6):
+        for rest in (0, 1, 2, 3):
+            A(Ob(name=f'decode.emit_step.S{st}R{rest}', props=['C05', 'C06', 'C09', 'C15', 'C08'], kind='bounded', tier='quick' if rest <= 2 else 'thorough',
+                 harness='h_emit.c', entry='h_emit_step', extra_srcs=['src/crctab.c'], defines={'EMIT_S': str(st), 'EMIT_REST': str(rest)}, solver='cadical',
+                 bound=f'resumed in saved state {st} with {rest} run-length-encoded byte(s) still unfetched; byte values 0..5 (so repeat counts <= 5), pending byte, run byte, '
+                       'running CRC and output buffer size 1..' + str(rest + 14) + ' symbolic',
+                 what='one call of the real emit() from this saved state writes exactly the bytes the un-RLE rule yields from the corresponding logical decoder state until the buffer is '
+                      'full or the block ends; returns OK / MORE / ERR_RUNLEN accordingly (four equal bytes ending the block without a count are always rejected); on MORE the saved '
+                      'state is the logical state; on OK the reported CRC is the CRC of the bytes written',
+                 functions=['emit'], timeout=900,
+                 flags=['--unwind', '5', '--unwindset', 'emit.0:8,emit.1:8,emit.2:8,emit.3:8,emit.4:5,h_emit_step.0:6,h_emit_step.1:6,h_emit_step.2:52,h_emit_step.3:24', '--unwinding-assertions'],
+                 expect=['emit returns OK when the block is finished', 'the state saved at a full buffer is the logical decoder state', 'the bytes written are the reference decoding'],
+                 replayable=True, replay_src='decode.c',
+                 assumed=['the IBWT list is the linear list decode() builds (node i -> node i+1); the meaning of the saved fields is the stated representation contract']))
+
     # ---------------- encode.c collect(): one-step conformance with the greedy packing rule (C04 O4.1, C01 O1.1, C02 O2.4)
     def collect_states(maxcap):
         for cap in range(1, maxcap + 1):
@@ -281,6 +297,36 @@ def all_obligations():
          functions=['xwrite'], enforce='xwrite', replace=['write'], loop_contracts=True, flags=['--unwind', '20'],
          expect=[r'xwrite\.postcondition', r'write\.precondition', 'loop_invariant_step', 'loop_decreases'],
          assumed=POSIX_RW))
+    # ---------------- process.c thread procedures and callbacks (three monitors; one generic loop iteration each)
+    PM = ['pthread mutex/condition primitives: sequential monitor model (lock = havoc of the protected state subject to the monitor invariant; wait = unlock + lock)',
+          'monitor invariants: source: free + held + queued input slots == total; sink: queue length + not-yet-pushed slot holders <= capacity; scheduler: next_task is empty or ready',
+          'loops carry no local state between iterations, so one iteration from an arbitrary shared state is the induction step; loop exit paths run to the end of the procedure',
+          'process callbacks (tasks, finished, on_block, on_written, init) are abstract stubs that assert their call-site obligations',
+          'fail*/xraise/halt are stubs; clock functions return arbitrary values']
+    PT = [('source_thread', 'h_source_thread', ['C03', 'C11', 'C12', 'C08'], ['xread'],
+           'reader thread: takes an input slot only when one is free and no close was requested (inside the source monitor); reads one chunk of exactly in_granul bytes capacity through xread(); '
+           'delivers the bytes read with that slot to on_block() (or gives the slot back for an empty chunk); continues only after a completely filled chunk; publishes eof inside the scheduler monitor',
+           ['reader: it continues only after a chunk that was filled completely', 'source monitor: input slots are conserved', 'reader: end of input is published'], ['CANARY reader continues']),
+          ('sink_thread', 'h_sink_thread', ['C03', 'C11', 'C12', 'C19', 'C08'], ['xwrite'],
+           'writer thread: takes the oldest queued buffer inside the sink monitor, writes all of it through xwrite() outside, reports it once through on_written(); ends only when told to finish with the queue empty',
+           ['writer: each buffer taken from the queue is written', 'writer: ends only when told to finish'], ['CANARY writer continues']),
+          ('source_release_buffer', 'h_source_release_buffer', ['C11', 'C12', 'C19'], [], 'source_release_buffer(): the slot returns to the pool inside the source monitor; the reader is woken exactly when no slot was free', ['source_release_buffer: the reader is woken exactly'], []),
+          ('source_close', 'h_source_close', ['C11', 'C12', 'C10'], [], 'source_close(): the close request is recorded inside the source monitor and a waiting reader is woken', ['source_close: the close request is recorded'], []),
+          ('sink_write_buffer', 'h_sink_write_buffer', ['C03', 'C11', 'C12', 'C19'], [], 'sink_write_buffer(): the buffer is appended at the tail of the output queue (FIFO) inside the sink monitor within the queue capacity; the writer is woken', ['sink_write_buffer: the buffer is appended at the tail'], []),
+          ('sched_unlock', 'h_sched_unlock', ['C11', 'C12'], [], 'sched_unlock()/select_task(): the highest-priority ready task becomes the hint; a worker is woken exactly when a task is ready or the process is finished', ['select_task picks the first ready task', 'sched_unlock wakes a worker exactly'], []),
+          ('worker', 'h_worker', ['C11', 'C12'], [], 'worker thread: a task runs only if its ready() holds under the same lock acquisition; the hint is recomputed after every task; the worker waits only with an empty hint and ends only when the process is finished, waking the others',
+           ['a task runs only if its ready\\(\\) predicate holds', 'worker: ends only when the process is finished'], ['CANARY worker continues after a task', 'CANARY worker woke up']),
+          ('copy_callbacks', 'h_copy_callbacks', ['C19', 'C12'], [], '-cdf copy pipeline callbacks: an input buffer is queued for writing whole and once; a written buffer goes back to the reader; slot counters move inside the scheduler monitor', ['copy: an input buffer is queued'], []),
+          ('copy_terminate', 'h_copy_terminate', ['C19'], [], 'copy_terminate(): the copy ends exactly when end of input was seen and no buffer is in flight', ['copy ends exactly when end of input was seen'], []),
+          ('primary_prologue', 'h_primary_prologue', ['C18', 'C11'], [], 'primary_thread(): eof, in_slots, out_slots, work_units are reset to their canonical values before init() and before any thread of the run exists, whatever the previous operand left',
+           ['every run starts from the canonical counters'], ['CANARY prologue complete'])]
+    for fn, entry, pr, repl, what, exp, can in PT:
+        A(Ob(name='process.' + fn, props=pr, kind='proof', harness='h_proc.c', entry=entry, what=what, functions=[fn.replace('_thread', '_thread_proc')], replace=repl,
+             flags=['--unwind', '6'] + ([] if repl else ['--unwinding-assertions']), assumed=PM + (['xread()/xwrite(): own contracts (proved in process.xread / process.xwrite)'] if repl else []),
+             expect=exp, canaries=can, timeout=900,
+             gi_flags=(['--restrict-function-pointer', 'worker_thread_proc.function_pointer_call.1/run0,run1,run2'] if fn == 'worker' else [])))
+    # (worker: next_task->run() would otherwise be resolved by type to every void(void) function whose address is taken, including the thread procedures themselves)
+
     # ---------------- compress.c scheduler monitor
     MON = ['monitor model: sched_lock() = havoc of all scheduler-protected state + assume I_c; sched_unlock()/task exit = assert I_c with the resources the SPEC '
            'declares held at that point (Owicki-Gries with ghost ownership counters)',
